@@ -189,6 +189,7 @@ def run(rep, tier, seed, pa):
             metas.append((dict(desc), bad, ctx, list(gts), cats, params, list(sampler._categories_weight), "reference"))
     # custom parameter sets
     custom_sampler = [None]
+    previous = []
     for ci in range(15 if tier == "quick" else 150):
         anns = rng.sample(["x1", "b", "Zed", "a a", "k"], rng.randrange(1, 5))
         cats = rng.sample(["A", "B", "C", "dd", "e"], 3 if ci % 2 else rng.randrange(1, 5))
@@ -201,8 +202,10 @@ def run(rep, tier, seed, pa):
         # custom parameter sets re-initialise ONE sampler object again and again (weights given, then not given, ...): nothing may leak
         if custom_sampler[0] is None or ci % 5 == 4:
             custom_sampler[0] = pa.StatisticalContinuumSampler()
+            previous = []
         sampler = custom_sampler[0]
-        desc = {"custom": params, "annotators": anns, "categories": cats, "weights": weights}
+        desc = {"custom": params, "annotators": anns, "categories": cats, "weights": weights, "earlier_initialisations": list(previous)}
+        previous.append({"custom": params, "annotators": anns, "categories": cats, "weights": weights})
         try:
             sampler.init_sampling_custom(anns, params["avg_nb"], params["std_nb"], params["avg_gap"], params["std_gap"], params["avg_dur"], params["std_dur"],
                                          cats, weights)
@@ -278,6 +281,20 @@ def screen(rep, pa, rng):
 
 def replay(rep, data, pa):
     print("  C15 replay: re-run the recorded draws %r ..." % (data.get("draws", [])[:6],))
+    if "custom" in data:
+        # custom parameters: the same sampler object goes through the recorded earlier initialisations first, then this one
+        sampler = pa.StatisticalContinuumSampler()
+        for d in list(data.get("earlier_initialisations") or []) + [data]:
+            pr = d["custom"]
+            sampler.init_sampling_custom(d["annotators"], pr["avg_nb"], pr["std_nb"], pr["avg_gap"], pr["std_gap"], pr["avg_dur"], pr["std_dur"], d["categories"], d["weights"])
+        np.random.seed(data.get("seed", 0) % (2 ** 31))
+        bad, line, ctx = check_run(rep, data, sampler, list(data["annotators"]), data["categories"], 1e-6, data["custom"], data["weights"])
+        if line is not None:
+            bad2, _ = judge_run(rep, data, run_model([line])[0], ctx[0], ctx[1], list(data["annotators"]), data["categories"], 1e-6, data["custom"], data["weights"])
+            bad = list(bad) + list(bad2)
+        for k, w in bad:
+            print("  ", k, w)
+        return not bad
     if "units" not in data:
         return False
     units = [[tuple(u) for u in us] for us in data["units"]]
